@@ -9,6 +9,8 @@ Definition safe (g : gout) : Prop := match g with GPass | GRej _ => True | _ => 
 
 Lemma safe_andthen : forall a b, safe a -> (a = GPass -> safe b) -> safe (a >>> b).
 Proof. intros a b Ha Hb. destruct a; cbn in *; auto. Qed.
+Lemma andthen_pass : forall b, GPass >>> b = b.
+Proof. reflexivity. Qed.
 Lemma safe_andthen' : forall a b, safe a -> safe b -> safe (a >>> b).
 Proof. intros. apply safe_andthen; auto. Qed.
 Lemma safe_guard : forall v b s, safe (guard v b s).
